@@ -138,14 +138,14 @@ theorem peek_refines [DecidableEq α] (cfg : Cfg) {b : LB α} {q : Q α} (hR : R
       · -- several nodes: through the peek cache
         have hF : (b.nodes.drop r0).flatMap Node.readable = q.flushedBytes := by
           rw [← absL_flushed, h5, hR.abs]; rfl
-        have key : ∀ (c : List α) (cp : Nat), c <+: q.flushedBytes →
+        have key : ∀ (c : List α) (cp kc : Nat), c <+: q.flushedBytes →
             ∃ b' r, (if c.length ≥ n.toNat then
-                some (({ b with r := r0, cachePeek := some (c, cp) } : LB α), Res.bytes (c.take n.toNat))
+                some (({ b with r := r0, caches := kc, cachePeek := some (c, cp) } : LB α), Res.bytes (c.take n.toNat))
               else match peekLoop (b.nodes.drop r0) 0 c n.toNat with
                 | none => none
-                | some p => some (({ b with r := r0, cachePeek := some (p, cp) } : LB α), Res.bytes (p.take n.toNat)))
+                | some p => some (({ b with r := r0, caches := kc, cachePeek := some (p, cp) } : LB α), Res.bytes (p.take n.toNat)))
               = some (b', r) ∧ R b' q ∧ Matches r (.exact (.bytes (q.firstBytes n.toNat))) := by
-          intro c cp hc
+          intro c cp kc hc
           by_cases hcl : c.length ≥ n.toNat
           · simp only [hcl, if_true]
             refine ⟨_, _, rfl, ⟨hR0.abs, hR0.len, hR0.mlen, hR0.shape, ?_, hR0.flags⟩, ?_⟩
@@ -164,14 +164,14 @@ theorem peek_refines [DecidableEq α] (cfg : Cfg) {b : LB α} {q : Q α} (hR : R
             · show Res.bytes _ = Res.bytes _
               rw [hfb, List.take_take, Nat.min_eq_left (Nat.le_max_left _ _)]
         cases hcp : b.cachePeek with
-        | none => exact key [] _ List.nil_prefix
+        | none => exact key [] _ _ List.nil_prefix
         | some x =>
           obtain ⟨c, cp⟩ := x
           by_cases hlt2 : cp < n.toNat
           · simp only [hlt2, if_true]
-            exact key [] _ List.nil_prefix
+            exact key [] _ _ List.nil_prefix
           · simp only [hlt2, if_false]
-            exact key c cp (q.leadBytes_eq_flushedBytes hro ▸ hR.cache hd c cp hcp)
+            exact key c cp _ (q.leadBytes_eq_flushedBytes hro ▸ hR.cache hd c cp hcp)
       · -- one node: the exposed flag of the read node is set
         rw [h4]
         simp only []
